@@ -507,6 +507,11 @@ func (pp c08) Run(c *core.Ctx, idx int) {
 						v = x
 					}
 				}) && (err != nil || v == nil) {
+					if err == nil && useGo && gm.Shape == "struct" && !lv.List && lv.V[0] == "" {
+						// a string field holding "" is what such a store has for 'unset' (see ZeroNormalize)
+						c.Count("struct_store_empty_string_reads_as_unset")
+						continue
+					}
 					c.Violate("leaf/get-error/"+storeName, "Find(%q).Get() = %v, %v\n%s", lp, v, err, wit())
 				}
 				break
